@@ -34,7 +34,7 @@ func LookupName(dip *inode.Inode, op *fstxn.FsTxn, name nfstypes.Filename3) (com
 }
 
 func AddName(dip *inode.Inode, op *fstxn.FsTxn, inum common.Inum, name nfstypes.Filename3) bool {
-	if dip.Kind != nfstypes.NF3DIR || uint64(len(name)) >= MAXNAMELEN {
+	if dip.Kind != nfstypes.NF3DIR || uint64(len(name)) > MAXNAMELEN {
 		return false
 	}
 	if dip.Dcache == nil {
@@ -49,7 +49,7 @@ func AddName(dip *inode.Inode, op *fstxn.FsTxn, inum common.Inum, name nfstypes.
 }
 
 func RemName(dip *inode.Inode, op *fstxn.FsTxn, name nfstypes.Filename3) bool {
-	if dip.Kind != nfstypes.NF3DIR || uint64(len(name)) >= MAXNAMELEN {
+	if dip.Kind != nfstypes.NF3DIR || uint64(len(name)) > MAXNAMELEN {
 		return false
 	}
 	if dip.Dcache == nil {
